@@ -480,15 +480,26 @@ func ruleWin3(c *Ctx, r *Reporter) {
 						return
 					}
 					bo, ok := iff.Cond.(*ssa.BinOp)
-					if !ok || bo.Op != token.GTR || bo.X != ssa.Value(skipP) {
+					if !ok {
 						return
 					}
-					if lc, ok := bo.Y.(*ssa.Call); ok {
-						if b, ok := lc.Call.Value.(*ssa.Builtin); ok && b.Name() == "len" && lc.Call.Args[0] == tupleResult(filterCall, 0) {
-							e := iff.Block().Succs[1]
-							if e == sl.Block() || e.Dominates(sl.Block()) {
-								guarded = true
-							}
+					// any form of `skip <= len(list)` on the edge that leads to the slice expression
+					other := bo.Y
+					if bo.Y == ssa.Value(skipP) {
+						other = bo.X
+					} else if bo.X != ssa.Value(skipP) {
+						return
+					}
+					lc, ok := other.(*ssa.Call)
+					if !ok {
+						return
+					}
+					if b, ok := lc.Call.Value.(*ssa.Builtin); !ok || b.Name() != "len" || lc.Call.Args[0] != tupleResult(filterCall, 0) {
+						return
+					}
+					for i, e := range iff.Block().Succs {
+						if (e == sl.Block() || e.Dominates(sl.Block())) && edgeBounds(bo, i == 0, skipP, true) {
+							guarded = true
 						}
 					}
 				})
